@@ -119,7 +119,9 @@ def merge(results):
             out["mech_counts"][k] = out["mech_counts"].get(k, 0) + v
         out["inconclusive"].extend(r["inconclusive"])
         for k, v in r["extra"].items():
-            if isinstance(v, (int, float)) and not isinstance(v, bool):
+            if k.startswith("max_"):
+                out["extra"][k] = max(out["extra"].get(k, 0), v)
+            elif isinstance(v, (int, float)) and not isinstance(v, bool):
                 out["extra"][k] = out["extra"].get(k, 0) + v
             elif isinstance(v, list):
                 out["extra"].setdefault(k, []).extend(v)
